@@ -773,6 +773,12 @@ loop:
 				}
 				j := len(cur.wakes) - 1
 				w := curWake
+				if j == 0 && !strings.Contains(w.evs, "W") && strings.Contains(cur.late, "W") {
+					// the writable event delivered under the held token arrived before the goroutine had left
+					// the select (and select took it): it is an event of this wake-up, not of the deferred Free
+					w.evs += cur.late
+					cur.late = ""
+				}
 				w.pick = 'w'
 				w.gso, w.so, w.peer = ch.sockopt(len(atts)-1, j)
 				returning := w.gso != 0 || vAct2(w.so) == "okNil" || vAct2(w.so) == "fail" || (vAct2(w.so) == "peer" && w.peer)
